@@ -63,7 +63,7 @@ def _apply(m, tree):
 
 
 def _one(args):
-    m, root = args
+    m, root, base, base_deferred = args
     import check
     tree = read_tree(root)
     try:
@@ -74,7 +74,6 @@ def _one(args):
         return (m.name, 'skipped', 'anchor text not present')
     known = {(k['property'], k['rule'], k['key']) for k in load_known().get('findings', [])}
     try:
-        base = _viol(check.analyse(m.pid, 'quick', root=root), known)
         run = check.analyse(m.pid, 'quick', overlay=ov, root=root)
     except AnalysisError as e:
         if m.kind == 'mutant':
@@ -82,14 +81,17 @@ def _one(args):
         return (m.name, 'noisy', 'refactor made the analysis fail: %s' % e)
     v = _viol(run, known)
     new = [x for x in v if x not in base]
+    newdef = [d for d in getattr(run, 'deferred', []) if d not in base_deferred]
     if m.kind == 'refactor':
         floors = [(r, c, f) for r, c, f in run.floors if c < f]
-        if new or floors:
-            return (m.name, 'noisy', 'refactor reported: %r %r' % (new[:3], floors))
+        if new or floors or newdef:
+            return (m.name, 'noisy', 'refactor reported: %r %r %r' % (new[:3], floors, newdef[:1]))
         return (m.name, 'silent', '')
     hits = [x for x in new if (m.rule is None or x[0] == m.rule) and m.key in x[1]]
     if hits:
         return (m.name, 'caught', '%s %s' % hits[0])
+    if newdef:
+        return (m.name, 'analysis-error', newdef[0])
     return (m.name, 'missed', 'expected %s ~%r; new violations: %r' % (m.rule, m.key, new[:4]))
 
 
@@ -101,9 +103,13 @@ def run_for(pid, root=None, jobs=None):
     vs = [m for m in corpus() if m.pid == pid]
     res = []
     if vs:
+        import check
+        known = {(k['property'], k['rule'], k['key']) for k in load_known().get('findings', [])}
+        b = check.analyse(pid, 'quick', root=root)
+        base, base_deferred = _viol(b, known), list(getattr(b, 'deferred', []))
         jobs = jobs or min(16, len(vs))
         with multiprocessing.Pool(jobs) as pool:
-            res = pool.map(_one, [(m, root) for m in vs])
+            res = pool.map(_one, [(m, root, base, base_deferred) for m in vs])
     from selftest import generic
     res = list(res) + generic.run(pid, root=root)
     from selftest import filerefs
